@@ -73,7 +73,9 @@ type signModel struct {
 }
 
 func checkC09(c *Ctx) {
+	defer c09SigRest(c)
 	c.Decided = append(c.Decided,
+		"G-C09-sigrest: every asn1.Unmarshal of a signature value in checkSignature has the length of its remainder tested (trailing bytes are not ignored)",
 		"T-RAWHASH: for every key family (SM2, RSA, NIST-ECDSA) and every signature algorithm of that family incl. the default, each of CreateCertificate, CreateCertificateRequest, CreateCRL and CreateRevocationList hands the signer the raw to-be-signed bytes exactly when the signer is an SM2 key (the convention checkSignature applies to SM2-curve keys) and a digest otherwise; the predicate in the source is evaluated over the finite table of combinations",
 		"T-RAWHASH-verifier: checkSignature verifies SM2-curve keys with Sm2Verify over the raw signed bytes and other ECDSA/RSA keys over the digest",
 		"T-SIGALG: every row of signatureAlgorithmDetails maps, in checkSignature's switch, to the same hash; SM2 rows carry the ECDSA key type; unknown algorithms are rejected",
